@@ -51,6 +51,7 @@ type Ctx struct {
 	modFns      []*ssa.Function
 	globalUsers map[*ssa.Global][]*ssa.Function
 	eff         *effects
+	errGlobalMemo map[*ssa.Global]bool
 	funcDecls map[*types.Func]*ast.FuncDecl
 	prof      *Profile
 	profErr   []string
